@@ -8,10 +8,14 @@
 EXTENDS Naturals, Sequences, TLC, Json, IOUtils, TLCExt
 Cases ==
   {[transport |-> "ssh", stage |-> s, secret |-> c] : s \in {"refused", "auth-fails", "hello-fails", "established"},
-                                                      c \in {"plain", "quotes", "nonascii", "long"}}
+                                                      c \in {"plain", "quotes", "nonascii", "long",
+                                                            (* values other conventions give a meaning to *)
+                                                            "at-prefix", "dash-prefix", "format", "shell", "path-like", "url-like", "json-like", "multiline"}}
   \cup {[transport |-> "tls", stage |-> s, secret |-> "key"] : s \in {"refused", "handshake-fails", "closed-after-handshake", "established"}}
   \cup {[transport |-> "agent", stage |-> s, secret |-> c] : s \in {"refused", "handshake-fails", "closed-after-handshake"},
                                                         c \in {"key", "combined-pem"}}
+  (* one agent process in daemon mode: a job that succeeds, then jobs that fail because the router is gone *)
+  \cup {[transport |-> "agent-daemon", stage |-> "established-then-unreachable", secret |-> "key"]}
   (* key files as users really have them; most of these make the attempt fail before it starts *)
   \cup {[transport |-> "agent", stage |-> "refused", secret |-> c] :
           c \in {"one-line", "no-end-marker", "no-begin-marker", "crlf", "der", "latin1-comment", "bom", "truncated"}}
